@@ -385,7 +385,7 @@ def gen_cases(r, tier):
         for pattern in ([0, (1 << k) - 1] if tier != "quick" else [(1 << k) - 1]):
             cases.append({"family": "width", "params": {"k": k, "pattern": pattern}, "options": ["--width", str(w)]})
     # setUp
-    for K, L in ([(3, 2)] if tier == "quick" else [(3, 1), (3, 2), (5, 4), (2, 4)]):
+    for K, L in ([(3, 2), (2, 4)] if tier == "quick" else [(3, 1), (3, 2), (5, 4), (2, 4), (1, 4)]):
         cases.append({"family": "setup", "params": {"K": K, "form": "while"}, "options": ["--loop", str(L)]})
     # invariant target
     for K, L in ([(7, 2)] if tier == "quick" else [(7, 2), (5, 1), (2, 2), (9, 4)]):
